@@ -685,6 +685,7 @@ func c16Threshold(c *lab.Ctx) {
 		}
 		return mismatch
 	}
+	confirmed := 0
 	// group by thresholds, up to 256 hosts per checker
 	groups := map[[2]uint32][]job{}
 	for _, j := range mine {
@@ -704,6 +705,12 @@ func c16Threshold(c *lab.Ctx) {
 				for _, m := range mm {
 					j := m.j
 					lastBad := m.bad
+					if confirmed >= 2 {
+						// two mismatches already reproduced 3/3 alone: further ones are only counted
+						c.Count("mismatches-after-confirmation", 1)
+						c.Eval(1)
+						continue
+					}
 					// a mismatch must reproduce alone 3/3 (the pacing of a timeout result involves real timers)
 					rep := 0
 					for t := 0; t < 3; t++ {
@@ -716,6 +723,7 @@ func c16Threshold(c *lab.Ctx) {
 					c.Eval(1)
 					c.Distinct(fmt.Sprintf("%s|%d|%d", j.seq, j.ut, j.ht))
 					if rep == 3 {
+						confirmed++
 						c.Violation("threshold-automaton", "C16/threshold/callback-mismatch",
 							fmt.Sprintf("results %s with unhealthy_threshold=%d healthy_threshold=%d: %s", j.seq, j.ut, j.ht, lastBad),
 							map[string]interface{}{"sequence": string(j.seq), "unhealthy_threshold": j.ut, "healthy_threshold": j.ht, "detail": lastBad})
